@@ -1,9 +1,44 @@
 import ALV.Common.Json
+import ALV.Model.C19
+import ALV.Spec.C19
 namespace ALV.Driver.C19
-open ALV ALV.J
+open ALV ALV.J ALV.C19
 
-/-- stub: the C19 slice is not built yet -/
-def handle (entry : String) (_j : Json) : Except String Json :=
-  throw s!"C19: unknown entry {entry}"
+/-- `{"num": x}` or `{"strm": [..]}` -/
+def getArg (j : Json) : Except String (Arg Rat) :=
+  match j.getObjVal? "num" with
+  | some v => do pure (.num (← getRat v))
+  | none =>
+    match j.getObjVal? "strm" with
+    | some v => do pure (.strm (← getList getRat v))
+    | none => throw "argument must be {num} or {strm}"
+
+def allEq : List Rat → Option Rat
+  | [] => none
+  | x :: xs => if xs.all (· == x) then some x else none
+
+def handle (entry : String) (j : Json) : Except String Json := do
+  match entry with
+  | "modulo_counter" =>
+    let a ← getArg (← field j "start")
+    let m ← getArg (← field j "modulo")
+    let s ← getArg (← field j "step")
+    let n ← getNat (← field j "n")
+    let model := moduloCounter a m s n
+    let ps := a.expand n
+    let ms := m.expand n
+    let ss := s.expand n
+    let rec_ := mcRec ps ms ss
+    let len := min ps.length (min ms.length ss.length)
+    -- closed layer only where the property states it: constant modulo
+    let closed : Json := match allEq (ms.take len) with
+      | some m0 => rats (mcClosed m0 (ps.take len) (ss.take len))
+      | none => Json.null
+    let zeroAt := mcZeroAt a m s n
+    pure <| Json.mkObj [
+      ("model", rats model), ("rec", rats rec_), ("closed", closed),
+      ("zero_at", optJson natToJson zeroAt),
+      ("branch", Json.str (mcBranch a m s))]
+  | _ => throw s!"C19: unknown entry {entry}"
 
 end ALV.Driver.C19
